@@ -828,6 +828,50 @@ def rule_r18(prog, res):
                         'while its users still refer to it' % it)
 
 
+def rule_r19(prog, res):
+    from . import c07
+    from ..report import Result
+    res.share('R19', 'every schema imports the namespaces it refers to, the '
+              'target namespace included (C07-R8)', 'C07', c07.rule_r8, prog,
+              Result)
+
+
+def rule_r20(prog, res):
+    res.rule('R20', 'the pattern facet is compiled for soft validation the '
+             'way it is published: no flags that change what \\d, \\w or '
+             'letter case mean (the schema processor knows none of them)')
+    c = prog.cls('spyne.model._base:SimpleModelAttributesMeta')
+    n = 0
+    for nm in ('set_pattern', 'set_unicode_pattern'):
+        f = c.methods.get(nm)
+        if f is None:
+            continue
+        for call in calls_in(f.node):
+            if call_name(call) != 'compile':
+                continue
+            n += 1
+            flags = list(call.args[1:]) + [k.value for k in call.keywords
+                                           if k.arg == 'flags']
+            names = {y.attr if isinstance(y, ast.Attribute) else
+                     getattr(y, 'id', '') for x in flags for y in ast.walk(x)}
+            bad = sorted(names & {'ASCII', 'A', 'IGNORECASE', 'I', 'VERBOSE',
+                                  'X', 'LOCALE', 'L', 'DOTALL', 'S',
+                                  'MULTILINE', 'M'})
+            if nm == 'set_unicode_pattern':
+                bad = [b for b in bad if b not in ('UNICODE', 'U')]
+            where = '%s:%d' % (f.module.relpath, call.lineno)
+            res.ob('R20', where, '%s compiles the pattern with flags %s' % (
+                nm, sorted(names) or 'none'), 'VIOLATED' if bad else 'ok')
+            if bad:
+                res.finding('R20', 'SimpleModelAttributesMeta.%s|flags|%s' % (
+                    nm, ','.join(bad)), where, '%s compiles the facet with '
+                    're.%s while the same string is published verbatim as '
+                    'xs:pattern: the schema accepts values (non-ASCII digits '
+                    'or letters for \\d / \\w) that soft validation now '
+                    'refuses' % (nm, bad[0]))
+    res.floor('R20', 'pattern compilations in the attribute setters', n, 1)
+
+
 def run(prog, res, tier):
     res.run_rule(rule_r1, prog, res)
     res.run_rule(rule_r2, prog, res)
@@ -847,12 +891,19 @@ def run(prog, res, tier):
     res.run_rule(rule_r16, prog, res)
     res.run_rule(rule_r17, prog, res)
     res.run_rule(rule_r18, prog, res)
+    res.run_rule(rule_r19, prog, res)
+    res.run_rule(rule_r20, prog, res)
 
 
 _M = 'spyne/interface/xml_schema/model.py'
 _I = 'spyne/interface/_base.py'
 
 MUTANTS = [
+    Mutant('pattern-compiled-ascii', 'R20', 'fire', 'spyne/model/_base.py',
+           in_func('SimpleModelAttributesMeta.set_pattern',
+                   "self._pattern_re = re.compile(pattern)",
+                   "self._pattern_re = re.compile(pattern, re.ASCII)"),
+           'flags'),
     Mutant('cdict-base-by-base', 'R18', 'fire', 'spyne/util/cdict.py',
            in_func('cdict.__getitem__',
                    "for b in getattr(cls, '__mro__', ())[1:]:",
